@@ -5,7 +5,7 @@ change, and one-line summaries of every change submitted in earlier rounds (from
 the agent picks a different mechanism. Nothing else from /verif reaches an agent."""
 import glob, json, os, subprocess, sys
 n = int(sys.argv[1]); rnd = f"seed{n}"
-words = {9: "eight", 10: "nine", 11: "ten", 12: "eleven"}
+words = {9: "eight", 10: "nine", 11: "ten", 12: "eleven", 13: "twelve", 14: "thirteen", 15: "fourteen"}
 earlier = []
 for mf in sorted(glob.glob("/verif/seeded/*/meta.json")):
     m = json.load(open(mf))
